@@ -450,6 +450,14 @@ func (k *Walker) PathArgs(cmd string) []string {
 			// file for a deleted one is not
 			a = pickS(k.R, []string{a + "/", a + "/.", "no-such-dir/../" + a, a + "/../" + path.Base(a)})
 			k.W.C.Class("arg:" + cmd + ":through-file-spelling")
+		} else if class != "hostile" && cmd == "add" && ExistsOnDisk(k.W.State(), a) && k.chance(7) {
+			// through the parent and back: "../<name of the working directory>/x" names x
+			if a == "." {
+				a = "../w"
+			} else {
+				a = "../w/" + a
+			}
+			k.W.C.Class("arg:" + cmd + ":through-parent-spelling")
 		} else if class != "hostile" && a != "." && k.chance(10) {
 			switch k.R.IntN(3) {
 			case 0:
